@@ -9,6 +9,7 @@
 #include <sstream>
 #include <typeinfo>
 
+#include <thread>
 #include "common/verif.h"
 #include "ref/ref_format.h"
 #include "ref/ref_unicode.h"
@@ -128,8 +129,11 @@ std::string check_sinks(const FormatCase &k, Case &c, bool &nontrivial) {
         char *mb = nullptr; size_t ms = 0;
         FILE *fp = open_memstream(&mb, &ms);
         if (!fp) throw std::runtime_error("open_memstream failed");
+        // however the call ends, the FILE* must be usable by another thread afterwards (a stdio lock taken and not released would block it forever)
+        auto left_locked = [&] { bool busy = false; std::thread t([&] { if (ftrylockfile(fp) == 0) funlockfile(fp); else busy = true; }); t.join(); return busy; };
         try { with_args(args, [&](const auto &...x) { ST::printf(fp, fs, x...); }); }
-        catch (...) { fclose(fp); free(mb); throw; }
+        catch (...) { bool busy = left_locked(); fclose(fp); free(mb); if (busy) throw std::runtime_error("ST::printf threw and left the FILE* locked: a later writer on another thread would block forever"); throw; }
+        if (left_locked()) { fclose(fp); free(mb); throw std::runtime_error("ST::printf returned and left the FILE* locked: a later writer on another thread would block forever"); }
         bool err = ferror(fp) != 0;
         fclose(fp); o.assign(mb, ms); free(mb);
         if (err) throw std::runtime_error("FILE* error indicator set");
